@@ -117,11 +117,13 @@ def run_bodies(p, d, r, n):
 def dense_programs(tier):
     progs = []
     sizes = [(2, 11), (2, 12), (11, 2), (12, 2), (11, 11), (12, 12), (11, 12), (12, 11), (2, 2)]
+    # 17 / 24 actions per step and 17 / 24 branches (thresholds at 16): small in the other dimension, all three macro kinds
+    sizes += [(2, 17), (2, 24), (17, 2), (24, 2)]
     if tier != "quick":
-        sizes += [(24, 2), (2, 24), (24, 12), (12, 24), (24, 24)]
+        sizes += [(24, 12), (12, 24), (24, 24)]
     for nb, na in sizes:
         for mac in ("join", "try_join", "join_async") if (nb * na <= 144) else ("join", "try_join"):
-            if mac == "join_async" and tier == "quick" and nb * na > 24:
+            if mac == "join_async" and tier == "quick" and nb * na > 24 and min(nb, na) > 2:
                 continue
             p = dense(mac, nb, na)
             d, r = dsl.program_dsl(p), dsl.program_ref(p)
